@@ -86,6 +86,26 @@ PROPS["C05"] = {
     "assumptions": ["targets always healthy so that a deploy reaches its install point at once"],
 }
 
+PROPS["C06"] = {
+    "test": "TestC06", "level": "fault_enumeration", "registered": True, "engine": "sim",
+    "shards_quick": 8, "shards_thorough": 16, "timeout": 900,
+    "technique": "runtime differential monitor: observable snapshot (routing, behaviour, list, state file) before vs after each failing command of every error class; probe logs watched after the failure",
+    "level_text": "23 error classes (malformed target first/last/rollout, never healthy all/one/rollout/new service, unreadable or missing certificate, error-page directory missing/unparsable/empty, automatic TLS with a wildcard, host conflict by a new service and by a redeploy, unknown service for each of the seven commands, split without rollout targets) are each issued in configurations reached by random successful histories (2-13 commands over <= 4 services with options, pause/stop and rollout state varied). The failing redeploy carries changed options so that a partial application is visible. Oracle: the command reports an error, the ~100-key observable snapshot is identical before and after, and the rejected targets see no probe and no client request after the command returned (watched 40 virtual seconds).",
+    "level_note": "Trusted: the snapshot panel (6 hosts x 6 paths, cookie panel, body sizes, slow request, TLS requests, list, parsed state file); classes are enumerated, configurations sampled.",
+    "rule": "a class is (error class, number of services in the configuration, error text); every evaluation is a failing command in a non-empty configuration",
+    "assumptions": ["targets of the reached configuration are always healthy", "go1.26.8 synctest"],
+}
+
+PROPS["C08"] = {
+    "test": "TestC08", "level": "exploration", "registered": True, "engine": "sim",
+    "shards_quick": 8, "shards_thorough": 16, "timeout": 900,
+    "technique": "runtime monitor: timeline model of running/paused/stopped decides every request's outcome; independent HTML-escaping oracle on the 503 body",
+    "level_text": "Histories of stop / pause / resume / deploy / rollout commands with hostile stop messages (markup, template syntax, quotes, entities, NUL, 4-byte UTF-8, 64 KiB) run with and without custom error pages (with a 503 template, without one) while GET/POST/HEAD requests to the health path, look-alikes and other paths arrive at lattice instants. The timeline model gives the allowed outcome; a 503 body must be the right page with a fragment that contains no markup characters and unescapes to the message; the targets' logs show that nothing was forwarded while stopped.",
+    "level_note": "Trusted: timeline model, html.UnescapeString as the inverse of escaping (the code's escaper is not reused); NUL is compared as U+FFFD.",
+    "rule": "a class is (error-page variant, sequence of command kinds, number of distinct messages rendered); non-trivial = at least one request was answered while the service was stopped",
+    "assumptions": ["targets healthy and instantaneous"],
+}
+
 ENGINES = [
     {"name": "sim", "path": "/verif/harness (world_test.go)", "kind_free_text": "real internal/server code in a testing/synctest bubble (virtual time) on an in-memory network with scripted fake targets and hook-placed delays; monitors judge recorded events", "serves_properties": []},
 ]
